@@ -18,8 +18,8 @@ state as the code leaves it, plus the error):
       UNINTERPRETED parameter `f : List Val → List Val` carried by the operation      → `Col`, `col*`
 * `transformations/series/compose.py` `OptionalPassthrough`                     → `TState.pass`
 * `transformations/base.py` `BaseTransformer.fit` / `fit_transform`             → `Op.fitTransform`
-* `transformations/series/outlier_detection.py` `_hampel_filter` (windows looked up BY LABEL,
-      results written BY POSITION, in place)                                     → `hampel`
+* `transformations/series/outlier_detection.py` `_hampel_filter` (windows read and results
+      written by position, each window seeing the previous writes)              → `hampel`
 
 Values are `Option Rat`: `none` = NaN / ±inf (anything non-finite).  The seasonal component
 (statsmodels), the result of the seasonality test and whether the library's own fitting routine
@@ -128,32 +128,35 @@ def allPositive (z : Series) : Bool :=
 def decompOk (sp : Nat) (mult : Bool) (z : Series) : Bool :=
   allFinite z && (!mult || allPositive z) && decide (2 * sp ≤ z.length)
 
-def desDecompose (s1 : Des) (z : Series) (d : FitData) : Des × Out :=
-  if !decompOk s1.sp s1.mult z then (s1, .err .value)
+/-- the decomposition step of `fit`; `_set_y_index` happens only AFTER it succeeded
+(repo commit 1ad9b8f), so a failing fit leaves the object untouched -/
+def desDecompose (s : Des) (z : Series) (d : FitData) : Des × Out :=
+  if !decompOk s.sp s.mult z then (s, .err .value)
   else match d.seasonal with
-    | none => (s1, .err .nodata)
-    | some seas => ({ s1 with seasonal := some seas, fitted := true }, .ok)
+    | none => (s, .err .nodata)
+    | some seas => ({ s with seasonal := some seas, y0 := (labels z).head?, fitted := true }, .ok)
 
-/-- `fit`: `_set_y_index` happens BEFORE the decomposition, so a failing fit still moves it -/
+/-- `fit` -/
 def desFit (s : Des) (inp : Input) (d : FitData) : Des × Out :=
   match checkSeries false inp with
   | .error e => (s, .err e)
   | .ok z =>
-    let s1 := { s with y0 := (labels z).head? }
     if s.cond then
       match d.isSeasonal with
-      | none => (s1, .err .value)
-      | some true => desDecompose s1 z d
+      | none => (s, .err .value)
+      | some true => desDecompose s z d
       | some false =>
-        ({ s1 with seasonal := some (List.replicate s.sp (if s.mult then 1 else 0)), fitted := true }, .ok)
-    else desDecompose s1 z d
+        ({ s with seasonal := some (List.replicate s.sp (if s.mult then 1 else 0)),
+                  y0 := (labels z).head?, fitted := true }, .ok)
+    else desDecompose s z d
 
-/-- `update`: re-points `_y_index` at the new batch; `seasonal_` is untouched -/
+/-- `update`: validates the batch; the phase reference `_y_index` stays at the training start
+(repo commit 1ad9b8f) -/
 def desUpdate (s : Des) (inp : Input) : Des × Out :=
   if !s.fitted then (s, .err .notfitted)
   else match checkSeries false inp with
     | .error e => (s, .err e)
-    | .ok z => ({ s with y0 := (labels z).head? }, .ok)
+    | .ok _ => (s, .ok)
 
 def desTransform (s : Des) (inv : Bool) (inp : Input) : Des × Out :=
   if !s.fitted then (s, .err .notfitted)
@@ -326,13 +329,9 @@ def nanMedian (vs : List Val) : Val :=
     | some a, some b => some ((a + b) / 2)
     | _, _ => none
 
-/-- `Z[cv_window]` with an integer index: a LABEL lookup; a missing label raises KeyError -/
-def lookupLabels (z : Series) : List Int → Except Err (List Val)
-  | [] => .ok []
-  | l :: ls =>
-    match z.filter (fun p => p.1 = l) with
-    | [] => .error .key
-    | ms => (lookupLabels z ls).map (fun r => ms.map (·.2) ++ r)
+/-- `Z.iloc[cv_window]`: the values at positions `a .. a+w-1` (repo commit bc08df8; before it the
+window was read with `Z[cv_window]`, a label lookup) -/
+def windowVals (z : Series) (a w : Nat) : List Val := ((z.drop a).take w).map (·.2)
 
 /-- `_compare` -/
 def hampelCompare (v med sigma : Val) (nSigma : Rat) : Val :=
@@ -366,22 +365,16 @@ def hampelBody (cfg : HampelCfg) (z : Series) (a : Nat) (vs : List Val) : Series
   (hampelTargets z.length cfg.w a).foldl
     (fun acc j => setPos acc j (hampelCompare ((acc[j]?).bind (·.2)) med sigma cfg.nSigma)) z
 
-/-- one iteration of the loop of `_hampel_filter` for the window starting at position `a`:
-the window is read with `Z[cv_window]`, i.e. BY LABEL -/
-def hampelWindow (cfg : HampelCfg) (z : Series) (a : Nat) : Except Err Series :=
-  match lookupLabels z ((List.range cfg.w).map (fun i => ((a + i : Nat) : Int))) with
-  | .error e => .error e
-  | .ok vs => .ok (hampelBody cfg z a vs)
+/-- one iteration of the loop of `_hampel_filter` for the window starting at position `a` -/
+def hampelWindow (cfg : HampelCfg) (z : Series) (a : Nat) : Series :=
+  hampelBody cfg z a (windowVals z a cfg.w)
 
 /-- `_hampel_filter`: windows `a = 0 .. n-w-1` (SlidingWindowSplitter(window_length=w, fh=1)),
 each reading the series as modified by the previous ones -/
 def hampel (cfg : HampelCfg) (z : Series) : Except Err Series :=
   if cfg.w = 0 then .error .value
   else if cfg.w + 1 > z.length then .error .value
-  else (List.range (z.length - cfg.w)).foldl
-    (fun acc a => match acc with
-      | .error e => .error e
-      | .ok cur => hampelWindow cfg cur a) (.ok z)
+  else .ok ((List.range (z.length - cfg.w)).foldl (fun cur a => hampelWindow cfg cur a) z)
 
 -- ---------------------------------------------------------------------------------------------
 -- the transformer machine
